@@ -40,7 +40,7 @@ META = {
     "assumptions": ["hash_mode=mixed (unbounded symbolic numbers hash to a constant)"],
 }
 
-QUERIES = ["q:w->m", "q:base(w)", "q:parse(kkw)", "q:parse(Kw)", "q:compat(m)", "q:dim(w/s)", "q:compact"]
+QUERIES = ["q:w->m", "q:base(w)", "q:parse(kkw)", "q:parse(Kw)", "q:compat(m)", "q:dim(w/s)", "q:compact", "q:parse-ci", "q:compat-group"]
 CHANGES = ["define", "enable:c1", "enable:c3", "enable:c4", "disable:1", "disable:all", "system:sysA", "system:sysB", "system:None", "other-registry"]
 
 
@@ -48,7 +48,7 @@ def _text(W, late):
     lines = W.text()
     # a second system whose base length unit is w
     i = lines.index("@defaults")
-    lines[i:i] = ["@system sysB using grpA", "    w", "    s", "    g", "@end"]
+    lines[i:i] = ["@system sysB using grpA", "    w", "    s", "    g", "@end", "@group grpB", "    ww = 5 * m", "@end"]
     if late:
         lines.insert(6, f"nu = {W.eng.lit(W.sn)} * m")
     return lines
@@ -83,6 +83,16 @@ def _answers(eng, ureg, x, keep=None):
     ask("parse(kkw)", lambda: dict(ureg.parse_units("kkw")._units))
     ask("parse(w/s)", lambda: dict(ureg.parse_units("w/s")._units))
     ask("parse(nu)", lambda: dict(ureg.parse_units("nu")._units))
+    ask("parse(W)", lambda: dict(ureg.parse_units("W")._units))
+    ask("parse(W/S)", lambda: dict(ureg.parse_units("W/S")._units))
+    ask("parse(W,case_sensitive=True)", lambda: dict(ureg.parse_units("W", case_sensitive=True)._units))
+    ask("parse(W,case_sensitive=False)", lambda: dict(ureg.parse_units("W", case_sensitive=False)._units))
+    ask("Quantity(KKW)", lambda: ureg.Quantity(x, "KKW").to("m").magnitude)
+    ask("compat(m,root)", lambda: sorted(str(u) for u in ureg.get_compatible_units("m", "root")))
+    ask("compat(w,grpA)", lambda: sorted(str(u) for u in ureg.get_compatible_units("w", "grpA")))
+    ask("compat(w,grpB)", lambda: sorted(str(u) for u in ureg.get_compatible_units("w", "grpB")))
+    ask("compat(m,root)-again", lambda: sorted(str(u) for u in ureg.get_compatible_units("m", "root")))
+    ask("Unit(m).compatible_units()", lambda: sorted(str(u) for u in ureg.Unit("m").compatible_units()))
     ask("parse(Kw)", lambda: dict(ureg.parse_units("Kw")._units))
     ask("parse(Kws)", lambda: dict(ureg.parse_units("Kws")._units))
     ask("parse(kkKw)", lambda: dict(ureg.parse_units("kkKw")._units))
@@ -140,7 +150,7 @@ def _same(eng, a, b, label):
     eng.prove(Eq(a, b), label)
 
 
-def h_sequence(eng, ops):
+def h_sequence(eng, ops, quiet=False):
     W = World(eng)
     ureg = regs.build(eng, _text(W, late=False))
     x = eng.real("x")
@@ -163,6 +173,17 @@ def h_sequence(eng, ops):
             ureg.parse_units("Kw")
             ureg.Quantity(x, "KU_").to("m")
             ureg.get_name("kkuus")
+        elif op == "q:parse-ci":
+            # one-off case-insensitive look-ups of spellings that do not exist case-sensitively
+            for text in ("W", "W/S", "KKW", "Uu"):
+                try:
+                    ureg.parse_units(text, case_sensitive=False)
+                except UndefinedUnitError:
+                    pass
+        elif op == "q:compat-group":
+            for grp in ("root", "grpA", "grpB"):
+                ureg.get_compatible_units("m", grp)
+                ureg.get_compatible_units("w", grp)
         elif op == "q:compact":
             ureg.Quantity(eng.num(1500), "w").to_compact()
             ureg.Quantity(eng.num(Fraction(1, 2000)), "u").to_compact()
@@ -204,6 +225,9 @@ def h_sequence(eng, ops):
             other.enable_contexts("c4")
             other.default_system = "sysB"
             other.Quantity(x, "kkw").to_base_units()
+        if quiet and i < len(ops) - 1:
+            # quiet runs ask nothing until the end: what is memoised depends on the operations alone
+            continue
         # the oracle: a fresh registry with the same definitions, in the same state
         fresh = regs.build(eng, _text(W, late=state["late"]))
         _apply(fresh, state, W)
@@ -217,7 +241,7 @@ def h_sequence(eng, ops):
                     eng.fail(f"{tag}:{la}:unit-defined-under-context-overlay-is-lost", stop=False)
                     state["k2_reported"] = True
                 continue
-            if la.startswith("compat(m)") and state["late"] and isinstance(a, list) and isinstance(b, list) and "nu" in b and "nu" not in a:
+            if (la.startswith("compat(") or la.startswith("Unit(m).compatible")) and state["late"] and isinstance(a, list) and isinstance(b, list) and "nu" in b and "nu" not in a:
                 # known defect K4; compare the rest of the listing
                 if not state.get("k4_reported"):
                     eng.fail(f"{tag}:{la}:late-definition-missing-from-compatible-units", stop=False)
@@ -237,6 +261,10 @@ def cases(tier, seed):
     triples = [list(s) for s in itertools.product(alpha, repeat=3)]
     seqs += triples if big else rnd.sample(triples, 250)
     out = []
+    qs = [list(s) for s in rnd.sample(triples, 600 if big else 80)] + [list(s) for s in itertools.product(alpha, repeat=2)]
+    qs += [["enable:c3", "disable:1", "enable:c3", "disable:1"], ["enable:c4", "q:base(w)", "disable:all", "enable:c4", "disable:1"], ["system:sysB", "q:base(w)", "system:sysA"], ["enable:c3", "define", "disable:1", "enable:c3"]]
+    for s in qs:
+        out.append(Case("H13", "quiet:" + ";".join(s), M, "h_sequence", {"ops": s, "quiet": True}, opts={"hash_mode": "mixed", "max_paths": 300}, validate=0, weight=float(len(s))))
     for i, s in enumerate(seqs):
         out.append(Case("H13", ";".join(s), M, "h_sequence", {"ops": s}, opts={"hash_mode": "mixed", "max_paths": 300}, validate=1 if i % 8 == 0 else 0, weight=float(len(s))))
     return out
